@@ -437,6 +437,23 @@ impl Report {
         let dir = verif_root().join("evidence");
         let _ = std::fs::create_dir_all(&dir);
         let p = dir.join(format!("{}.json", self.property));
+        // a second pass of the same tier under another build profile adds to the first pass's evidence
+        let mut ev = ev;
+        if let Ok(tag) = std::env::var("VERIF_PROFILE_TAG") {
+            if let Ok(old) = std::fs::read_to_string(&p).map_err(|_| ()).and_then(|t| serde_json::from_str::<Value>(&t).map_err(|_| ())) {
+                let old_evals = old["coverage"]["evaluations"].as_u64().unwrap_or(0);
+                let old_nt = old["coverage"]["distinct_nontrivial"].as_u64().unwrap_or(0);
+                let old_wall = old["wall_s"].as_f64().unwrap_or(0.0);
+                let new_evals = ev["coverage"]["evaluations"].as_u64().unwrap_or(0);
+                let new_nt = ev["coverage"]["distinct_nontrivial"].as_u64().unwrap_or(0);
+                let new_wall = ev["wall_s"].as_f64().unwrap_or(0.0);
+                ev["coverage"]["evaluations"] = json!(old_evals + new_evals);
+                // the same generated cases are executed again under the other profile: not new distinct cases
+                ev["coverage"]["distinct_nontrivial"] = json!(old_nt.max(new_nt));
+                ev["coverage"]["profiles"] = json!({"verif (release + debug-assertions + overflow-checks)": old_evals, tag: new_evals});
+                ev["wall_s"] = json!(old_wall + new_wall);
+            }
+        }
         if let Err(e) = std::fs::write(&p, serde_json::to_string_pretty(&ev).unwrap()) {
             eprintln!("cannot write evidence {p:?}: {e}");
         }
